@@ -30,7 +30,8 @@ def tree_to_expr(s):
                 cstr = f'"{value}" {op}' if stringed else f"{op}{value}"
                 groups[-1].append(["L", str(name), cstr, "1" if swapped else "0"])
         subs = [g[0] if len(g) == 1 else ["AND", str(len(g))] + [x for e in g for x in e] for g in groups]
-        return subs[0] if len(subs) == 1 else ["OR", str(len(subs))] + [x for e in subs for x in e]
+        # _compact_markers always wraps the groups in a MarkerUnion (even a single one): keep the OR node
+        return ["OR", str(len(subs))] + [x for e in subs for x in e]
     return US.join(conv(tree.children))
 
 def enc_marker(m):
